@@ -26,7 +26,7 @@ def run(prop, tier, cfg):
             hp = os.path.join(scratch, 'src', 'verif_native_' + os.path.basename(hrel))
             shutil.copy(os.path.join(VERIF, hrel), hp)
             open(os.path.join(scratch, rel), 'a').write('\n#[cfg(test)]\n#[path = "%s"]\nmod verif_native;\n' % hp)
-        env = dict(os.environ, CARGO_NET_OFFLINE='true', CARGO_TARGET_DIR=os.path.join(VERIF if os.path.isdir(os.path.join(VERIF, 'build')) else '/verif', 'build', 'native_target'))
+        env = dict(os.environ, VP_TIER=tier, CARGO_NET_OFFLINE='true', CARGO_TARGET_DIR=os.path.join(VERIF if os.path.isdir(os.path.join(VERIF, 'build')) else '/verif', 'build', 'native_target'))
         names = [t['name'] for t in cfg['tests'] if not (t.get('tier', 'quick') == 'thorough' and tier != 'thorough')]
         # only the requested tests run (test-name filters after `--`)
         cmd = ['cargo', 'test', '--offline', '--release', '--features', 'charsets,multipart-form,json,form', '--lib', '--'] + names + ['--nocapture', '--test-threads', '8']
